@@ -1,9 +1,38 @@
 (* C04 — Size bound at quiescence; pinned and oversized entries.
    Model: Policy.v (W-TinyLFU over three deques, wrapping counters) and Maint.v (tasks in any
-   arrival order). Proved here: the properties of the eviction loop that the bound rests on.
-   The bound itself at quiescence for every event list is C04_bound_at_quiescence in
-   Properties/C05.v's invariant development when present; see DESIGN section 5 for the status. *)
-From Otter Require Import Base Sketch Policy PolicyFacts.
+   arrival order).
+   Proved here (theories/PolicyBound.v on top of PolicyInv.v), for EVERY event list (index actions,
+   tasks reaching the write buffer in any order, reads, maintenance runs, SetMaximum):
+     C04_bound_after_maintenance  a maintenance run that starts with no task in flight ends quiescent,
+         with the policy's total equal (mod 2^64) to the weights of the entries present, the deques
+         holding exactly the entries present, and that total at most the maximum (or zero, which is
+         the same thing for the non-negative maxima of the code);
+     C04_evict_nodes_restores_bound  the same for evictNodes alone, including that the loop fuel of the
+         model (the code's loop has none) always suffices: a decreasing measure over the two cursors;
+   plus the loop-step facts: only positive-weight nodes are evicted and only while over the bound
+   (zero-weight entries are never removed for size), oversized nodes are evicted by the task that
+   introduces them. *)
+From Otter Require Import Base Sketch Policy Wheel Maint PolicyFacts PolicyInv PolicyBound.
+
+Theorem C04_bound_after_maintenance : forall hashf evs expire weighted cur rnd now,
+  run_ok hashf (sys0 expire weighted) evs ->
+  let s := fold_left (sys_step hashf) evs (sys0 expire weighted) in
+  sfl s = [] ->
+  let s' := sys_step hashf s (EMaint cur rnd now) in
+  let p := pol (sm s') in
+  pend s' = [] /\
+  wsize p = wrapu (sum_weights p (qwin p ++ qprob p ++ qprot p)) /\
+  (forall id, linked p id <-> alive_in p id) /\
+  (wsize p <= maxi p \/ wsize p = 0).
+Proof. exact bound_after_maintenance. Qed.
+Print Assumptions C04_bound_after_maintenance.
+
+Theorem C04_evict_nodes_restores_bound : forall hashf rnd p,
+  PQ p ->
+  let p' := fst (pol_evict_nodes hashf rnd p) in
+  PQ p' /\ (wsize p' <= maxi p' \/ wsize p' = 0).
+Proof. exact pol_evict_nodes_bound. Qed.
+Print Assumptions C04_evict_nodes_restores_bound.
 
 (* an iteration of evictFromMain evicts only while the total weight exceeds the maximum, and
    never a node of weight zero *)
@@ -20,10 +49,10 @@ Proof. intros fuel hashf rnd p cu. apply (evict_from_main_nonzero fuel hashf rnd
 Print Assumptions C04_zero_weight_never_evicted.
 
 (* the loop gives up only when the bound is restored or both cursors are exhausted *)
-Theorem C04_loop_exit_partial : forall hashf rnd p cu,
+Theorem C04_loop_exit : forall hashf rnd p cu,
   ef_step hashf rnd p cu = EfStop -> wsize p <= maxi p \/ (c_victim cu = None /\ c_cand cu = None).
 Proof. exact ef_step_stop. Qed.
-Print Assumptions C04_loop_exit_partial.
+Print Assumptions C04_loop_exit.
 
 (* an entry heavier than the maximum is evicted by the very task that introduces it *)
 Theorem C04_oversized_not_retained : forall hashf p id,
